@@ -20,6 +20,14 @@ class C06(PropBase):
                 s = self.c05.concrete(rng, v, t)
                 for cfg in cfgs:
                     out.append(Case('path', [['s', s], cfg, 'pos'], 'base', {'sid': s, 'cfg': cfg}))
+                if rng.random() < 0.25:
+                    opens = [i for i, (k, e) in enumerate(v.types[t]) if v.alternatives(e) is None]
+                    if opens:
+                        segs = s.split('/')
+                        segs[rng.choice(opens)] = rng.choice(['oph?elia', 'x?task=rig', 'a:b', 'a#b', 'x y', 'a,b', '*x'])
+                        fields = [[k, g] for (k, e), g in zip(v.types[t], segs)]
+                        for cfg in cfgs:
+                            out.append(Case('path', [['f', fields], cfg, 'pos'], 'base', {'sid': '/'.join(segs), 'cfg': cfg}))
         return out
     def mutate(self, rng, p, other_root_pair):
         parts = p.split('/')
@@ -41,7 +49,7 @@ class C06(PropBase):
             i = rng.randrange(max(0, len(p) - 60), len(p))
             return p[:i] + rng.choice('_.-/X ') + p[i + 1:]
         if r < 0.5:
-            i = rng.randrange(len(parts)); parts[i] = rng.choice(PATH_VALUES); return '/'.join(parts)
+            i = rng.randrange(len(parts)); parts[i] = rng.choice(PATH_VALUES + ['oph?elia', 'x?task=rig', 'a:b', '..', 'a#b', 'x y']); return '/'.join(parts)
         if r < 0.58:
             i = rng.randrange(1, len(parts)); del parts[i]; return '/'.join(parts)
         if r < 0.66:
